@@ -421,26 +421,68 @@ def r_files(ctx, model):
 
 
 def r_typestate(ctx, model):
-    """shear inputs are assigned before the value is read (both getters)"""
+    """shear inputs are attached before the value is read (both getters, in either order, repeatedly): each getter folded on
+    a task object whose contribution calculator records, at the moment value_isothermal / value_adiabatic is read, which
+    lookup tables it holds"""
+    from ..sym import Ev, Obj, DictV, EnumV, RaisedV
+    from ..facts import KeyObj
     TASK = "cij.core.tasks:PhononContributionTask"
+    ENUM = "cij.util.voigt:ElasticModulusCalculationType"
+
+    class Recorder:
+        """stands for the Shear/Longitudinal contribution object of the task"""
+
+        def __init__(self):
+            self.attrs = {}
+            self.reads = []
+
+        def sym_getattr(self, ev, name, node, mod):
+            if name in ("value_isothermal", "value_adiabatic"):
+                self.reads.append((name, dict(self.attrs)))
+                return __import__("sympy").Symbol(name.upper())
+            if name in self.attrs:
+                return self.attrs[name]
+            raise RaisedV("AttributeError")
+
+        def sym_setattr(self, ev, name, v, node, mod):
+            self.attrs[name] = v
+
     for g, attr in (("get_modulus_isothermal", "value_isothermal"), ("get_modulus_adiabatic", "value_adiabatic")):
         ref = f"{TASK}.{g}"
         f = model.func(ref)
         ctx.fn(ref)
-        sn = f.args.args[0].arg
-        rets = [s for s in ast.walk(f) if isinstance(s, ast.Return)]
-        if len(rets) != 1:
-            raise AnalysisError(f"{g}: expected one return")
-        ifs = [s for s in f.body if isinstance(s, ast.If)]
-        ok = False
-        for i in ifs:
-            if "SHEAR" in src(i.test) and isinstance(i.test, ast.Compare) and isinstance(i.test.ops[0], ast.Eq):
-                assigned = {t.attr for st in i.body if isinstance(st, ast.Assign) for t in st.targets if isinstance(t, ast.Attribute)}
-                ok = {"modulus", "modulus_rotated"} <= assigned and f.body.index(i) < f.body.index(rets[0])
-        ctx.check(ok and src(rets[0].value) == f"{sn}.calculator.{attr}", f"{g}: shear lookup tables assigned before {attr} is read", model.where(ref, f),
-                  expected=f"if SHEAR: calculator.modulus = ...; calculator.modulus_rotated = ...; return calculator.{attr}", found=src(rets[0].value),
-                  explanation="a shear task is evaluated before its known components are attached: AttributeError or values of a previous task",
-                  key=f"{g}.typestate")
+        bad = []
+        for kind, key in (("SHEAR", "c44"), ("LONGITUDINAL", "c11"), ("OFF_DIAGONAL", "c12")):
+            for history in ((), ("other",), ("same", "other")):          # nothing read before / the other getter first / both before
+                rec = Recorder()
+                m1, m2 = DictV({"marker": "ORIGINAL-FRAME"}), DictV({"marker": "ROTATED-FRAME"})
+                task = Obj(TASK, {"key": KeyObj(key), "calculator": rec, "modulus_results": m1, "modulus_results_rotated": m2,
+                                  "_task_params": Obj("cij.core.tasks:PhononContributionTaskParams", {"params": "PARAMS"})})
+                ev = Ev(model, {}, {}, ctx=ctx)
+                ev.lenient = True
+                try:
+                    other = "get_modulus_adiabatic" if g == "get_modulus_isothermal" else "get_modulus_isothermal"
+                    for h in history:
+                        hf = g if h == "same" else other
+                        ev.call_def(model.func(f"{TASK}.{hf}"), model.mods["cij.core.tasks"], f"{TASK}.{hf}", [task], {})
+                    n_before = len(rec.reads)
+                    out = ev.call_def(f, model.mods["cij.core.tasks"], ref, [task], {})
+                except RaisedV as e:
+                    bad.append(f"{kind} after {history or 'nothing'}: raises {e.exc_name}")
+                    continue
+                mine = rec.reads[n_before:]
+                if [r[0] for r in mine] != [attr] or str(out) != attr.upper():
+                    bad.append(f"{kind} after {history or 'nothing'}: reads {[r[0] for r in mine]} and returns {out}")
+                    continue
+                held = mine[0][1]
+                if kind == "SHEAR" and not (held.get("modulus") is m1 and held.get("modulus_rotated") is m2):
+                    bad.append(f"SHEAR after {history or 'nothing'}: {attr} read while the lookup tables held are "
+                               f"{ {k: getattr(v, 'd', v) for k, v in held.items()} }")
+        ctx.check(not bad, f"{g}: a shear task's lookup tables are attached before {attr} is read (any read history)", model.where(ref, f),
+                  expected="calculator.modulus = modulus_results and calculator.modulus_rotated = modulus_results_rotated hold when the value is read; "
+                           f"the getter returns calculator.{attr}", found="; ".join(bad[:3]) or "as required in 9 scenarios",
+                  explanation="a shear task is evaluated before its known components are attached (AttributeError, or the values of a previous "
+                              "task / the other frame), or the getter returns another quantity", key=f"{g}.typestate")
 
 
 RULES = [
